@@ -95,7 +95,7 @@ reg("C01",
     "to one, rescaling normalises the tropical polynomials, Box-Muller radius identity, the weighted propagator sum at the returned "
     "momenta equals c^2|q|^2 + (p^T X p - u^T L^-1 u), Jacobian determinant of the momentum map det(cQ^-T)^2 det L = c^(2L), gauge "
     "invariance of the weight; collected in `reduction`. The integral identity itself needs Schwinger parametrisation, Borinsky's "
-    "sector-density theorem and inverse-CDF/Box-Muller, which are cited, not formalised. Tie to the code: end-to-end correspondence "
+    "sector-density theorem and the inverse-CDF lemma, which are cited, not formalised; the Box-Muller theorem is proved (C13.boxMuller_law). Tie to the code: end-to-end correspondence "
     "of sample on multi-loop/massive/non-trivial routings; supporting fixed-seed Monte Carlo against closed forms (tadpole, bubble, "
     "two-tadpole product under two routings; mean of jacobian*g = (pi/alpha)^(DL/2) for triangle, sunrise k1+-k2, double triangle, banana).",
     "Three classical theorems cited; Monte Carlo is a statistical supporting test (6 sigma + 0.5%), not a proof.",
@@ -115,7 +115,10 @@ reg("C02",
 reg("C07",
     "Lean: law-free - the rescaling multiplies all parameters by one factor and returns u_trop=v_trop=one; one removal step writes "
     "kappa to the removed edge, updates v_trop iff spanning is lost, u_trop iff the loop number drops, then kappa*=xi^(1/omega(g')) "
-    "with the remaining graph; the last removal draws no xi. alpha:=R - the common rescaling makes (s^L U_tr)^(D/2)(s V_tr)^dod = 1. "
+    "with the remaining graph; the last removal draws no xi; permLoop_trace: the whole loop is the replay of its trace (s_k,g_k,xi_k), "
+    "a chain g_k = g_(k-1) minus s_k with pairwise distinct edges, the k-th removed edge holding kappa_k at the end. alpha:=R - "
+    "sector_formula: the pre-rescaling parameter of s_k is prod_(j<k) xi_j^(1/omega(g_j)) and the used one is that times the common "
+    "factor; the common rescaling makes (s^L U_tr)^(D/2)(s V_tr)^dod = 1. "
     "That the logged tropical values are the MAXIMAL monomials rests on greedy optimality on the cographic matroid (cited): decided "
     "on the real code by brute force over all spanning trees / F monomials (exact), together with the sector formula (mpmath) and the "
     "normalisation.",
@@ -178,9 +181,11 @@ reg("C12",
 reg("C13",
     "Lean: law-free, every D, L - Gaussian number n=l*D+i is the cosine (n even) / sine (n odd) branch of pair floor(n/2), read "
     "from coordinates base+2 floor(n/2) and +1; exactly L vectors of D components; D L + (D L mod 2) reads. alpha:=R - z1^2+z2^2 = "
-    "-2 ln a and the polar form. Standard normality/independence is the Box-Muller theorem (cited). Bit-exact correspondence for all "
+    "-2 ln a and the polar form; boxMuller_law(_model): the Box-Muller theorem itself (Mathlib measure theory) - for every measurable "
+    "f >= 0 the integral of f(boxMuller(a,b)) over the open unit square equals the integral of f against (2 pi)^-1 exp(-(z1^2+z2^2)/2), "
+    "i.e. the two values of one pair are independent standard normals for a uniform pair (pairs use disjoint coordinates). Bit-exact correspondence for all "
     "D=1..6 x L=1..5 incl. a down to 2^-1074; mpmath definition oracle.",
-    "Box-Muller theorem cited.",
+    "Independence ACROSS pairs follows from disjoint coordinates (product measure), not formalised separately.",
     "Lean 4 theorems + bit-exact differential correspondence + mpmath oracle",
     "DESIGN.md §3 C13")
 
